@@ -71,4 +71,97 @@ func TestVerifReplayValidators(t *testing.T) {
 		}
 	}
 	fmt.Printf("REPLAY-CASES fn=%s n=%d\n", fn, cases)
+	vrRangeCases()
+}
+
+func vrIntListBytes(vals []int64, unsigned bool) []byte {
+	ll := &sdcpb.ScalarArray{}
+	for _, v := range vals {
+		if unsigned {
+			ll.Element = append(ll.Element, &sdcpb.TypedValue{Value: &sdcpb.TypedValue_UintVal{UintVal: uint64(v)}})
+		} else {
+			ll.Element = append(ll.Element, &sdcpb.TypedValue{Value: &sdcpb.TypedValue_IntVal{IntVal: v}})
+		}
+	}
+	b, _ := proto.Marshal(&sdcpb.TypedValue{Value: &sdcpb.TypedValue_LeaflistVal{LeaflistVal: ll}})
+	return b
+}
+
+func vrNum(v int64) *sdcpb.Number {
+	if v < 0 {
+		return &sdcpb.Number{Value: uint64(-v), Negative: true}
+	}
+	return &sdcpb.Number{Value: uint64(v)}
+}
+
+// validateRange: leaves and leaf-lists of signed / unsigned types, ranges around and away from zero
+func vrRangeCases() {
+	fn := "(*tree.sharedEntryAttributes).validateRange"
+	n := 0
+	type rng struct{ lo, hi int64 }
+	for _, unsigned := range []bool{false, true} {
+		for _, rs := range [][]rng{{{1, 10}}, {{-10, 10}}, {{1, 3}, {7, 9}}} {
+			if unsigned && rs[0].lo < 0 {
+				continue
+			}
+			for _, asList := range []bool{false, true} {
+				for _, vals := range [][]int64{{5}, {0}, {11}, {2, 8}, {2, 5}, {0, 2}, {20, 30}} {
+					if !asList && len(vals) != 1 {
+						continue
+					}
+					n++
+					typeName := "int32"
+					if unsigned {
+						typeName = "uint32"
+					}
+					lt := &sdcpb.SchemaLeafType{Type: typeName, TypeName: typeName}
+					for _, r := range rs {
+						lt.Range = append(lt.Range, &sdcpb.SchemaMinMaxType{Min: vrNum(r.lo), Max: vrNum(r.hi)})
+					}
+					s := &sharedEntryAttributes{pathElemName: "x", leafVariants: newLeafVariants(nil)}
+					var b []byte
+					if asList {
+						s.schema = &sdcpb.SchemaElem{Schema: &sdcpb.SchemaElem_Leaflist{Leaflist: &sdcpb.LeafListSchema{Name: "x", Type: lt}}}
+						b = vrIntListBytes(vals, unsigned)
+					} else {
+						s.schema = &sdcpb.SchemaElem{Schema: &sdcpb.SchemaElem_Field{Field: &sdcpb.LeafSchema{Name: "x", Type: lt}}}
+						var tv *sdcpb.TypedValue
+						if unsigned {
+							tv = &sdcpb.TypedValue{Value: &sdcpb.TypedValue_UintVal{UintVal: uint64(vals[0])}}
+						} else {
+							tv = &sdcpb.TypedValue{Value: &sdcpb.TypedValue_IntVal{IntVal: vals[0]}}
+						}
+						b, _ = proto.Marshal(tv)
+					}
+					s.leafVariants.les = append(s.leafVariants.les, &LeafEntry{Update: cache.NewUpdate([]string{"x"}, b, 10, "owner1", 0), IsNew: true})
+					errs, pan := vrCollect(func(ch chan *types.ValidationResultEntry) { s.validateRange(ch) })
+					bad := 0
+					for _, v := range vals {
+						in := false
+						for _, r := range rs {
+							if r.lo <= v && v <= r.hi {
+								in = true
+							}
+						}
+						if !in {
+							bad++
+						}
+					}
+					in := fmt.Sprintf("type=%s,leaflist=%v,ranges=%v,values=%v", typeName, asList, rs, vals)
+					if pan != nil {
+						fmt.Printf("REPLAY-FAIL fn=%s clause=panic input=%s panic=%v\n", fn, in, pan)
+						continue
+					}
+					clause := "signed_checks_current_element"
+					if unsigned {
+						clause = "unsigned_checks_current_element"
+					}
+					if errs != bad {
+						fmt.Printf("REPLAY-FAIL fn=%s clause=%s input=%s why=%d error(s) reported, %d element(s) out of range\n", fn, clause, in, errs, bad)
+					}
+				}
+			}
+		}
+	}
+	fmt.Printf("REPLAY-CASES fn=%s n=%d\n", fn, n)
 }
